@@ -14,8 +14,9 @@ from .. import core, terms as T, irspace, irtools, loopspace as LS, extraspace a
 LEVEL = 'exploration'
 RULE = ('programs = (1) every term of depth<=2 of the term space at the 4 principal configurations and every depth-1 term at all 16 serial '
         'configurations, (2) the loop grammar (bodies of depth<=1 (thorough: 2), post-operations and all pairs of small closed loops incl. '
-        'dependent ones, nested loops, loop-dependent chunk sizes) and (3) tuples / nested tuples sharing subterms or loops at all 32 '
-        'configurations; each compared with the numpy reference on the fixed valuation sets. non-trivial = distinct (program, configuration) '
+        'dependent ones, nested loops, loop-dependent chunk sizes and shapes) and (3) tuples / nested tuples sharing subterms or loops; thorough: '
+        'all 32 configurations each; quick: 10 serial configurations each (8 pass combinations, 2 with stats), all 16 serial ones for nested loops, '
+        'tuples and loop sums into loop-shaped arrays, and one forking configuration for nested loops and loop-shaped sums, every 4th tuple and every 32nd other program; each compared with the numpy reference on the fixed valuation sets. non-trivial = distinct (program, configuration) '
         'pairs evaluated on an in-domain valuation')
 ASSUMPTIONS = ['numpy reference interpreter (vmc.terms.ref) is the meaning of a program', 'fixed dyadic float valuations; int/bool arguments exhaustive over {0,1}',
                'parallel configurations use real forked workers (maxprocs=2) under the OS scheduler; schedules are explored exhaustively in C16, not here']
@@ -25,7 +26,8 @@ ALL_CONFIGS = [dict(simplify=s, optimize=o, cache=c, stats=st, maxprocs=m)
                for s in (True, False) for o in (True, False) for c in (False, True) for st in (None, 'log') for m in (1, 2)]
 SERIAL_CONFIGS = [c for c in ALL_CONFIGS if c['maxprocs'] == 1]
 PRINCIPAL = [c for c in ALL_CONFIGS if c['maxprocs'] == 1 and not c['cache'] and c['stats'] is None]
-PAR_DEFAULT = [c for c in ALL_CONFIGS if c['maxprocs'] == 2 and c['simplify'] and c['optimize'] and c['stats'] is None]
+BASE_CONFIGS = [c for c in SERIAL_CONFIGS if c['stats'] is None or c['simplify'] and c['optimize']]
+PAR_ONE = dict(simplify=True, optimize=True, cache=False, stats=None, maxprocs=2, first_valuation_only=True)
 
 TERM_PROFILES = {
     'quick': [{'name': 'd2-f5', 'leaves': 'f5', 'consts': False, 'ops': 'all', 'depth': 2},
@@ -89,7 +91,7 @@ def run_config(prog, node, cfg, envs_refs):
             f = evaluable.compile(node, _simplify=cfg['simplify'], _optimize=cfg['optimize'], cache_const_intermediates=cfg['cache'], stats=cfg['stats'])
         except Exception as e:
             return ('compile-exception', 'compile raised {!r}'.format(e)[:400])
-        for env, r in envs_refs:
+        for env, r in (envs_refs[:1] if cfg.get('first_valuation_only') else envs_refs):
             for call in range(2 if cfg['cache'] else 1):
                 try:
                     with numpy.errstate(all='ignore'):
@@ -175,12 +177,22 @@ def run_shard(spec, tier, seed):
     res = core.ShardResult()
     if spec['kind'] == 'loops':
         progs = LS.programs(tier)[spec['lo']:spec['hi']]
-        for fam, prog in progs:
-            # all 16 serial configurations for every program; forking configurations (maxprocs=2, ~0.1 s per call): all of them for
-            # nested loops, tuples and loop-dependent shapes, the two default-pass ones for the rest (schedules are C16's subject)
-            full = fam in ('p4', 'tuples') or 'ragged' in LS.show(prog)
-            _one(prog, ALL_CONFIGS if full else SERIAL_CONFIGS + PAR_DEFAULT, res, fam)
-        res.sample({'loop_program': LS.show(progs[0][1]), 'family': progs[0][0], 'configs': len(ALL_CONFIGS)})
+        for k, (fam, prog) in enumerate(progs):
+            # every program: the 8 serial pass combinations and the two stats='log' variants of the default passes; nested loops, tuples
+            # and loop sums into arrays whose shape comes out of another loop: all 16 serial configurations.  Forking configurations
+            # (maxprocs=2) are expensive on this box (a fork costs 30 ms alone and 250 ms when 16 workers fork at once), so quick runs
+            # one of them, on the first valuation, for nested loops and loop-shaped sums, every 4th tuple and every 32nd other program; thorough runs all 32 on
+            # everything.  The schedules of the forked code are C16's subject, not C02's.
+            sh = LS.show(prog)
+            full = fam in ('p4', 'tuples') or ('ragged' in sh and 'loopsum' in sh)
+            if tier == 'thorough':
+                cfgs = ALL_CONFIGS
+            else:
+                cfgs = SERIAL_CONFIGS if full else BASE_CONFIGS
+                if (spec['lo'] + k) % (1 if fam == 'p4' or full and fam != 'tuples' else 4 if full else 32) == 0:
+                    cfgs = cfgs + [PAR_ONE]
+            _one(prog, cfgs, res, fam)
+        res.sample({'loop_program': LS.show(progs[0][1]), 'family': progs[0][0], 'configs': {'base': [cfgname(c) for c in BASE_CONFIGS], 'nested/tuples/loop-shaped': [cfgname(c) for c in SERIAL_CONFIGS + [PAR_ONE]]}})
     elif spec['kind'] == 'derivs':
         for fam, term in XS.terms(tier)[spec['lo']:spec['hi']]:
             _deriv(term, res)
